@@ -69,16 +69,18 @@ CHECKS = {
 }
 # sentences added when families were added later (kept apart so that the table above stays readable)
 EXTRA = {
- "C01": " The zoo includes a scanner whose tokens depend on their column (get_column) and one whose state flows across untouched siblings.",
+ "C01": " The zoo includes a scanner whose tokens depend on their column (get_column) and one whose state flows across untouched siblings. Start documents with a truncated three-byte character and the atoms that complete it byte by byte.",
  "C03": " G7: every layout of per-production alias rows; G8: a two-action (reduce + shift) table entry in front of equal-core states.",
- "C05": " Alternations of two and three branches are enumerated in every anchored child slot.",
- "C08": " The edit alphabet includes multi-element appends behind a gap, so that nodes ending in a long repetition are reused whole and re-balanced.",
- "C09": " UTF-16 is also delivered as raw bytes through the C read callback with every window of 4-9 bytes.",
- "C11": " All nesting structures of <=8 (thorough 10) arrays and flat arrays of <=7 (9) numbers under multi-capture queries with predicates: the capture stream must be in document order.",
- "C14": " Family (v): ordered pairs (thorough: triples) of tokens over large Unicode classes in subset/overlap relations.",
+ "C05": " Alternations of two and three branches are enumerated in every anchored child slot. A fourth query language has fields on hidden rules that stay in the tree.",
+ "C08": " The edit alphabet includes multi-element appends behind a gap, so that nodes ending in a long repetition are reused whole and re-balanced. Both tiers end with a free-running ThreadSanitizer pass over the same thread bodies (evidence/C08-tsan.json): it covers accesses that bypass the hooked operations, which the controlled scheduler cannot interleave; the verdict on interleavings stays the schedule enumeration.",
+ "C09": " UTF-16 is also delivered as raw bytes through the C read callback with every window of 4-9 bytes. Histories that leave included ranges in force before a final parse under an explicit range list.",
+ "C11": " All nesting structures of <=8 (thorough 10) arrays and flat arrays of <=7 (9) numbers under multi-capture queries with predicates: the capture stream must be in document order. Under every range the capture stream equals the in-range captures of the matches under that range.",
+ "C14": " Family (v): ordered pairs (thorough: triples) of tokens over large Unicode classes in subset/overlap relations. Family (vii): tokens with the extras character inside them.",
  "C15": " Includes G7 and G8 of C03.",
- "C17": " Two further recognised-name lists leave out one kind of local definition each (shadowing documents in the seeds).",
+ "C17": " Two further recognised-name lists leave out one kind of local definition each (shadowing documents in the seeds). The locals query is also used with the reference pattern first; a definition must carry its own highlight.",
  "C18": " The language has a scope whose last token is a reference.",
+ "C02": " The zoo includes a token with the extras character inside it.",
+ "C06": " Plus a language with an inner field inside a fielded hidden rule.",
 }
 REASON_WIP = "check not built yet (work in progress; see DESIGN.md build order)"
 def main():
